@@ -96,7 +96,21 @@ def _call_src(m, nargs, cb, has_this):
     return "__rcv.%s(%s)" % (m, ", ".join(pre + names))
 
 
-def _one_call(api, ctx, st, ev, log, reg):
+def _js_args(m, nargs, cb, has_this, prefix="__a"):
+    """names of the JavaScript arguments of a method call: callback first, thisArg last"""
+    names = [prefix + str(i) for i in range(nargs)]
+    pre = []
+    if cb["kind"] == "fn":
+        pre = ["__cmp_" + cb["cmp"] if (m == "sort") else "__cb"]
+    elif cb["kind"] == "val":
+        pre = ["__cbv"]
+    if cb["kind"] != "na" and has_this:
+        names = names + ["__this"]
+    return pre + names
+
+
+def _one_call(api, ctx, st, ev, log, reg, mk=None):
+    """mk: builds the JavaScript text of the call from the argument names (family B); default: receiver.method(arguments)"""
     m, cb = ev["m"], ev["cb"]
     g = ctx._globals
     g["__rcv"] = st.known[ev["r"] - 1]
@@ -117,7 +131,7 @@ def _one_call(api, ctx, st, ev, log, reg):
     got = []
     g["__enter"] = enter
     g["__done"] = lambda *a: (got.append(a), None)[1]
-    expr = _call_src(m, len(ev["a"]), cb, bool(cb.get("hasThis")))
+    expr = _call_src(m, len(ev["a"]), cb, bool(cb.get("hasThis"))) if mk is None else mk(_js_args(m, len(ev["a"]), cb, bool(cb.get("hasThis"))))
     src = ("__n = 0; __k = 1; var __r, __t = 0, __e; try { __r = " + expr + "; } catch (e) { __t = 1; __e = e; } "
            "if (__t) { __done(1, __e, __cls(__e)); } else { __done(0, __r, ''); }")
     out = api.eval_outcome(ctx, src, wall=20.0, cap=400_000)
@@ -218,9 +232,75 @@ def key_driver(case, api):
     return {"id": case["id"], "obs": obs}
 
 
+_UNSET = object()
+
+
+def _pre_src(ev, k):
+    """JavaScript text of the k-th intervening call on the receiver (operands: globals __b<k>_<j>)"""
+    names = ["__b%d_%d" % (k, j) for j in range(len(ev["a"]))]
+    m = ev["m"]
+    if m == ".length=":
+        return "(__rcv.length = %s)" % names[0]
+    if m == "[]=":
+        return "(__rcv[%s] = %s)" % (names[0], names[1])
+    if ev["cb"]["kind"] not in ("na", "none"):
+        raise RuntimeError("intervening calls take no callback")
+    return "__rcv.%s(%s)" % (m, ", ".join(names))
+
+
+def bind_driver(case, api):
+    """ty = "bind" (family B): the method is looked up, the receiver is changed, the method is called
+    -> obs = {pre: [obs of every intervening call], fin: obs of the call}"""
+    ctx, st = _setup(api, case)
+    g = ctx._globals
+    log = []
+    form, m, pre = case["form"], case["m"], case["pre"]
+    rcv = st.known[case["r"] - 1]
+    fin_ev = {"m": m, "r": case["r"], "a": case["a"], "cb": case["cb"]}
+    pobs = []
+    if form == "inarg":
+        g["__rcv"] = rcv
+        g["__u"] = st.V.UNDEFINED
+        for k, ev in enumerate(pre):
+            g["__p%d" % k] = _UNSET
+            for j, a in enumerate(ev["a"]):
+                g["__b%d_%d" % (k, j)] = st.val(a)
+
+        def mk(names):
+            first = names[0] if names else "__u"
+            seq = ["__p%d = %s" % (k, _pre_src(ev, k)) for k, ev in enumerate(pre)]
+            arg0 = "(" + ", ".join(seq + [first]) + ")" if seq else first
+            return "__rcv.%s(%s)" % (m, ", ".join([arg0] + names[1:]))
+        fin = _one_call(api, ctx, st, fin_ev, log, False, mk)
+        for k, ev in enumerate(pre):
+            v = g.get("__p%d" % k, _UNSET)
+            out = {"o": "unset", "v": {"k": "undef"}, "cls": ""} if v is _UNSET else {"o": "value", "v": st.enc(v), "cls": ""}
+            pobs.append({"out": out, "store": [], "log": []})
+    else:
+        g["__rcv"] = rcv
+        lo = api.eval_outcome(ctx, "var __f = __rcv.%s;" % m, wall=20.0, cap=400_000)
+        ok = lo["o"] == "value"
+        for ev in pre:
+            pobs.append(_one_call(api, ctx, st, {"m": ev["m"], "r": case["r"], "a": ev["a"], "cb": ev["cb"]}, log, False))
+
+        def mk(names):
+            if form == "call":
+                return "__f.call(%s)" % ", ".join(["__rcv"] + names)
+            if form == "apply":
+                return "__f.apply(__rcv, [%s])" % ", ".join(names)
+            return "__f(%s)" % ", ".join(names)
+        fin = _one_call(api, ctx, st, fin_ev, log, False, mk)
+        if not ok:
+            fin["out"] = {"o": "host", "cls": "LookupFailed:" + lo["o"], "v": {"k": "undef"}}
+            _drop("arr")
+    return {"id": case["id"], "obs": {"pre": pobs, "fin": fin}}
+
+
 def call_driver(case, api):
     if case["ty"] == "ta":
         return ta_driver(case, api)
+    if case["ty"] == "bind":
+        return bind_driver(case, api)
     if case["ty"] == "key":
         return key_driver(case, api)
     ctx, st = _setup(api, case)
